@@ -365,6 +365,35 @@ func (w *world) observe(c corruption, res *drv.Result, download bool, r *rand.Ra
 			judge("ReadAt", x.off, x.n, outcome{buf[:m], e})
 		})
 	}
+	// one long-lived file system instance (a streamed mount keeps one for its whole life): the same requests repeated,
+	// then other read styles on the same instance — a leaf rejected once must not be served from a cache afterwards
+	guard("reread-same-fs", func() {
+		shared := newFs()
+		rqs := append([]q{}, qs[:min(len(qs), 5)]...)
+		for pass := 0; pass < 3; pass++ {
+			for _, x := range rqs {
+				ra, err := shared.GetAt(ctx, w.key)
+				if err != nil {
+					judge("reread-same-fs:ReadAt", x.off, x.n, outcome{err: err})
+					continue
+				}
+				buf := make([]byte, x.n)
+				m, e := ra.ReadAt(buf, int64(x.off))
+				if e == io.EOF {
+					e = nil
+				}
+				judge(fmt.Sprintf("reread-same-fs:ReadAt-pass%d", min(pass, 1)+1), x.off, x.n, outcome{buf[:m], e})
+			}
+		}
+		rd, err := shared.Get(ctx, w.key)
+		if err != nil {
+			judge("reread-same-fs:Read", 0, len(content), outcome{err: err})
+			return
+		}
+		defer rd.Close()
+		got, rerr := io.ReadAll(rd)
+		judge("reread-same-fs:Read", 0, len(content), outcome{got, rerr})
+	})
 	// WriteTo
 	guard("WriteTo-plain", func() {
 		rd, err := newFs().Get(ctx, w.key)
